@@ -1153,7 +1153,52 @@ var c14MapTypes = []string{
 	"any", "(slice any)", "(struct (f A - any) (f B <any> any))", "RawMessage", "(ptr RawMessage)", "(slice RawMessage)", "(struct (f R - RawMessage) (f P ,omitempty (ptr RawMessage)))",
 }
 
+// fAppendKeys: maps whose keys are written through a text method or as integers, with enough entries for the sorted
+// order to matter (integer kinds with MarshalText sort by the TEXT, integers by their decimal text, as encoding/json
+// does): with SortMapKeys the bytes are encoding/json's, without it a permutation of them
+func fAppendKeys() {
+	vals := []any{
+		map[IntKey]string{9: "a", 10: "b", 100: "c", -1: "d", 0: "e", 11: "f"},
+		map[NameKey]int{0: 10, 1: 11, 2: 12, 3: 13, 4: 14, 5: 15, -7: 16, 100: 17},
+		map[NameKeyU]string{0: "a", 1: "b", 2: "c", 3: "d", 255: "e"},
+		map[int]string{9: "a", 10: "b", 100: "c", -1: "d", 0: "e", -10: "f"},
+		map[uint8]bool{9: true, 10: false, 100: true, 2: false, 200: true},
+		map[StructKey]int{{A: 2, B: 1}: 1, {A: 10, B: 1}: 2, {A: 1, B: 9}: 3},
+		struct {
+			M map[IntKey]map[int8]string
+		}{map[IntKey]map[int8]string{10: {-1: "x", 1: "y", 10: "z", 9: "w"}, 9: {}, 100: nil}},
+		[]any{map[IntKey]int{3: 1, 20: 2, 100: 3}, map[uint64]any{18446744073709551615: 1, 2: nil, 10: "<&>"}},
+	}
+	for vi, x := range vals {
+		for flags := 0; flags < 8; flags++ {
+			if !mine() {
+				skip()
+				continue
+			}
+			args := fmt.Sprintf("%d %d", vi, flags)
+			var orc string
+			impl := guarded(func() string {
+				var ob bytes.Buffer
+				oe := stdjson.NewEncoder(&ob)
+				oe.SetEscapeHTML(flags&int(json.EscapeHTML) != 0)
+				if err := oe.Encode(x); err != nil {
+					orc = "err"
+				} else {
+					orc = "ok " + hexs(canonFor(bytes.TrimSuffix(ob.Bytes(), []byte("\n")), flags))
+				}
+				b, err := json.Append(nil, x, json.AppendFlags(flags))
+				if err != nil {
+					return "err"
+				}
+				return "ok " + hexs(canonFor(b, flags))
+			})
+			emit("f.appendkeys", args, impl, orc)
+		}
+	}
+}
+
 func c14() {
+	fAppendKeys()
 	jEncSeqAll() // failed encodes followed by other encodes (pooled scratch state)
 	g := &jgen{maxDepth: 3}
 	nT, nV := 700, 3
